@@ -35,22 +35,20 @@ func runC07(c *Ctx) {
 	c.Rule("C07.2", "refresh restarts the full timeout: AddPermission's existing-entry edge calls existing.refresh(perms.timeout) with the timeout of the permission passed in; the new-entry path calls perms.start(perms.timeout); every nil-returning path of AddChannelBind passes start(channelLifetime) or refresh(channelLifetime) on the binding and AddPermission(NewPermission(that binding's peer, _, permissionLifetime))", 4)
 	{
 		addPerm := w.Func("allocation", "Allocation", "AddPermission")
-		pRefresh := w.Func("allocation", "Permission", "refresh")
-		pStart := w.Func("allocation", "Permission", "start")
 		nR, nS := 0, 0
 		w.eachInstrDeep(addPerm, func(in ssa.Instruction) {
-			call, ok := in.(*ssa.Call)
-			if !ok {
+			op := w.timerOpOf(in)
+			if op == nil || op.typ != "Permission" {
 				return
 			}
-			switch call.Call.StaticCallee() {
-			case pRefresh:
+			switch op.kind {
+			case "reset":
 				nR++
 				c.Anchor("C07.2", "AddPermission refresh")
-				// refresh(existing, perms.timeout): arg is the timeout field of the parameter
-				okArg := w.isFieldLoadOf(call.Call.Args[1], addPerm.Params[1], "timeout")
-				// on the found edge: receiver is the map lookup result, ok is true
-				lk, _ := stripIface(w.resolveLoad(call.Call.Args[0])).(*ssa.Extract)
+				// the new request's timeout: the timeout field of the parameter
+				okArg := w.isFieldLoadOf(op.dur, addPerm.Params[1], "timeout")
+				// on the found edge: the object is the map lookup result, ok is true
+				lk, _ := stripIface(w.resolveLoad(op.obj)).(*ssa.Extract)
 				okRecv := lk != nil && lk.Index == 0 && lookupPairOf(w, lk.Tuple, w.Field("allocation", "Allocation", "permissions"))
 				okEdge := false
 				for _, f := range w.factsAt(in) {
@@ -65,10 +63,10 @@ func runC07(c *Ctx) {
 				} else {
 					c.Bad("C07.2", fname(addPerm), "existing.refresh", w.instrPos(in), fmt.Sprintf("refresh of an existing permission does not restart the full new timeout (arg is perms.timeout=%v, receiver is the looked-up entry=%v, on the found edge=%v)", okArg, okRecv, okEdge))
 				}
-			case pStart:
+			case "arm":
 				nS++
 				c.Anchor("C07.2", "AddPermission start")
-				if w.sameKey(call.Call.Args[0], addPerm.Params[1]) && w.isFieldLoadOf(call.Call.Args[1], addPerm.Params[1], "timeout") {
+				if w.sameKey(op.obj, addPerm.Params[1]) && w.isFieldLoadOf(op.dur, addPerm.Params[1], "timeout") {
 					c.OK("C07.2", fname(addPerm), "perms.start", w.instrPos(in), "new entry started with its own timeout")
 				} else {
 					c.Bad("C07.2", fname(addPerm), "perms.start", w.instrPos(in), "new permission is not started with its own timeout")
@@ -81,10 +79,10 @@ func runC07(c *Ctx) {
 		if nS == 0 {
 			c.Bad("C07.2", fname(addPerm), "perms.start", w.pos(addPerm.Pos()), "a new permission is no longer started by AddPermission")
 		}
-		// must-pass: every path from entry to a return passes refresh or start
+		// must-pass: every path from entry to a return passes a reset or an arm of a permission timer
 		hit := func(in ssa.Instruction) bool {
-			cal := staticCallee(in)
-			return cal == pRefresh || cal == pStart
+			op := w.timerOpOf(in)
+			return op != nil && op.typ == "Permission"
 		}
 		if ok, trail := mustPassBefore(addPerm.Blocks[0], w.deepHit(hit), func(*ssa.BasicBlock) bool { return false }); !ok {
 			c.Bad("C07.2", fname(addPerm), "all paths", w.pos(addPerm.Pos()), "a path through AddPermission neither refreshes the existing entry nor starts the new one", trail...)
@@ -94,8 +92,6 @@ func runC07(c *Ctx) {
 		acb := w.Func("allocation", "Allocation", "AddChannelBind")
 		addPerm := w.Func("allocation", "Allocation", "AddPermission")
 		newPerm := w.Func("allocation", "", "NewPermission")
-		cStart := w.Func("allocation", "ChannelBind", "start")
-		cRefresh := w.Func("allocation", "ChannelBind", "refresh")
 		chanLife, permLife := acb.Params[2], acb.Params[3]
 		c.Anchor("C07.2", "AddChannelBind channel timer")
 		c.Anchor("C07.2", "AddChannelBind permission")
@@ -104,14 +100,10 @@ func runC07(c *Ctx) {
 				continue
 			}
 			// backward: all paths from entry to this return pass (start|refresh)(_, channelLifetime) and AddPermission(NewPermission(_,_,permissionLifetime))
-			okChan := allPathsTo(acb, ret.Block(), func(in ssa.Instruction) bool {
-				call, ok := in.(*ssa.Call)
-				if !ok {
-					return false
-				}
-				cal := call.Call.StaticCallee()
-				return (cal == cStart || cal == cRefresh) && w.sameKey(call.Call.Args[1], chanLife)
-			})
+			okChan := allPathsTo(acb, ret.Block(), w.deepHit(func(in ssa.Instruction) bool {
+				op := w.timerOpOf(in)
+				return op != nil && op.typ == "ChannelBind" && w.sameKey(op.dur, chanLife)
+			}))
 			okPerm := allPathsTo(acb, ret.Block(), func(in ssa.Instruction) bool {
 				call, ok := in.(*ssa.Call)
 				if !ok || call.Call.StaticCallee() != addPerm {
@@ -312,50 +304,41 @@ func ruleAtomicRemove(c *Ctx, rule string) {
 func ruleTimerRoles(c *Ctx, rule string) {
 	w := c.W
 	fi := w.flow()
-	afterFunc := timeAfterFunc(w)
 	fiveMin := constant.MakeInt64(int64(300e9)).ExactString()
 	tenMin := constant.MakeInt64(int64(600e9)).ExactString()
 	// ---- C07.1
 	c.Rule(rule, "role flow: the duration of every time.AfterFunc / Timer.Reset in a method of Permission derives only from {ServerConfig.PermissionTimeout, 5 min}; in a method of ChannelBind only from {ServerConfig.ChannelBindTimeout, 10 min}; package-allocation API parameters without module callers are tolerated as embedding/test entry points", 4)
 	type role struct{ typ, cfg, def string }
 	for _, r := range []role{{"Permission", "cfg:ServerConfig.PermissionTimeout", "const:" + fiveMin}, {"ChannelBind", "cfg:ServerConfig.ChannelBindTimeout", "const:" + tenMin}} {
-		for _, mn := range []string{"start", "refresh"} {
-			fn := w.Func("allocation", r.typ, mn)
+		for _, kind := range []string{"arm", "reset"} {
 			n := 0
-			w.eachInstr(fn, func(in ssa.Instruction) {
-				call, ok := in.(*ssa.Call)
-				if !ok {
-					return
-				}
-				var d ssa.Value
-				switch {
-				case call.Call.StaticCallee() == afterFunc:
-					d = call.Call.Args[0]
-				case call.Call.StaticCallee() != nil && call.Call.StaticCallee().String() == "(*time.Timer).Reset":
-					d = call.Call.Args[1]
-				default:
-					return
-				}
-				n++
-				c.Anchor(rule, r.typ+"."+mn)
-				lv := fi.leaves(d)
-				var bad []string
-				for _, l := range leafList(lv) {
-					switch {
-					case l == r.cfg, l == r.def:
-					case strings.HasPrefix(l, "param:") && strings.Contains(l, "allocation."):
-					default:
-						bad = append(bad, l)
+			for _, fn := range w.ModFns {
+				w.eachInstr(fn, func(in ssa.Instruction) {
+					op := w.timerOpOf(in)
+					if op == nil || op.typ != r.typ || op.kind != kind {
+						return
 					}
-				}
-				if len(bad) == 0 {
-					c.OK(rule, fname(fn), r.typ+" timer duration", w.instrPos(in), "sources: "+strings.Join(leafList(lv), ", "))
-				} else {
-					c.Bad(rule, fname(fn), r.typ+" timer duration", w.instrPos(in), "a "+r.typ+" timer can be armed with a duration of another role: "+strings.Join(bad, ", ")+" (all sources: "+strings.Join(leafList(lv), ", ")+")")
-				}
-			})
+					n++
+					c.Anchor(rule, r.typ+"."+kind)
+					lv := fi.leaves(op.dur)
+					var bad []string
+					for _, l := range leafList(lv) {
+						switch {
+						case l == r.cfg, l == r.def:
+						case strings.HasPrefix(l, "param:") && strings.Contains(l, "allocation."):
+						default:
+							bad = append(bad, l)
+						}
+					}
+					if len(bad) == 0 {
+						c.OK(rule, fname(fn), r.typ+" timer duration", w.instrPos(in), "sources: "+strings.Join(leafList(lv), ", "))
+					} else {
+						c.Bad(rule, fname(fn), r.typ+" timer duration", w.instrPos(in), "a "+r.typ+" timer can be armed with a duration of another role: "+strings.Join(bad, ", ")+" (all sources: "+strings.Join(leafList(lv), ", ")+")")
+					}
+				})
+			}
 			if n == 0 {
-				c.Bad(rule, fname(fn), r.typ+" timer duration", w.pos(fn.Pos()), r.typ+"."+mn+" no longer arms/resets a timer: anchor gone")
+				c.Bad(rule, "allocation."+r.typ, r.typ+" timer duration", "-", "no "+kind+" of a "+r.typ+" lifetime timer is left in the module: anchor gone")
 			}
 		}
 	}
@@ -394,4 +377,47 @@ func lookupPairOf(w *World, tuple ssa.Value, tbl *types.Var) bool {
 		return n > 0
 	}
 	return false
+}
+
+// timerOp: an operation on the lifetimeTimer of a module object, wherever it is spelled out
+// (in a start/refresh method, in a helper, or inline): "arm" = the field is assigned
+// time.AfterFunc(d, _), "reset" = (*time.Timer).Reset(obj.lifetimeTimer, d).
+type timerOp struct {
+	kind string
+	obj  ssa.Value // the struct pointer whose timer it is (parameters of single-call-site helpers resolved to the argument)
+	dur  ssa.Value
+	typ  string // name of the struct type
+}
+
+func (w *World) timerOpOf(in ssa.Instruction) *timerOp {
+	owner := func(base ssa.Value) (ssa.Value, string) {
+		b := w.resolveLoad(base)
+		t := b.Type()
+		if p, ok := t.Underlying().(*types.Pointer); ok {
+			t = p.Elem()
+		}
+		if n, ok := t.(*types.Named); ok {
+			return b, nm(n.Obj())
+		}
+		return b, ""
+	}
+	switch x := in.(type) {
+	case *ssa.Call:
+		if cal := x.Call.StaticCallee(); cal != nil && cal.String() == "(*time.Timer).Reset" {
+			if b, f, ok := fieldLoad(x.Call.Args[0]); ok && nm(f) == "lifetimeTimer" {
+				o, tn := owner(b)
+				return &timerOp{"reset", o, w.resolveLoad(x.Call.Args[1]), tn}
+			}
+		}
+	case *ssa.Store:
+		fa, ok := x.Addr.(*ssa.FieldAddr)
+		if !ok || nm(fieldOf(fa)) != "lifetimeTimer" {
+			return nil
+		}
+		if ac, _ := callOf(w.resolveLoad(x.Val)); ac != nil && ac.Call.StaticCallee() == timeAfterFunc(w) {
+			o, tn := owner(fa.X)
+			return &timerOp{"arm", o, w.resolveLoad(ac.Call.Args[0]), tn}
+		}
+	}
+	return nil
 }
